@@ -208,12 +208,16 @@ def _check_decode(cls, row, raw):
     img = [0] * 255
     for loc, b in zip(cls.locations, raw):
         img[loc.address] = b
+    before = list(img)
     try:
         got = _tag(cls.from_list(img))
     except Exception as e:  # noqa
         out.append(("C11:decode-raised:" + name, "%s.from_list with raw [%s] raised %r; reference: %r"
                     % (name, _hex(raw), e, ref[1])))
     else:
+        if img != before:
+            out.append(("C11:decode-modified-callers-image:" + name, "%s.from_list with raw [%s] changed the bank image "
+                        "it was given" % (name, _hex(raw))))
         if not _accept(got, ref, row, raw):
             out.append((_classify(name, got, ref), "%s.from_list with raw [%s] gave %r, reference says %r"
                         % (name, _hex(raw), got[1], ref[1])))
